@@ -415,8 +415,10 @@ class XsdSimpleType(XsdType, ValidationMixin[str | bytes, DecodedValueType]):
         if derivation:
             if derivation == self.derivation:
                 derivation = None  # derivation mode checked
-            elif self.derivation:
-                return False
+            elif self.derivation or derivation == 'extension':
+                # A simple type is never derived by extension (built-in types
+                # have no derivation attribute but are derived by restriction).
+                return self is other or self.ref is other
 
         if other.ref is not None:
             other = other.ref
